@@ -34,6 +34,12 @@ CLAIMED = {
   "note": "Trusted: Lean kernel + three standard axioms; 'first error on the faulty line' is established by the fault-injection search on the implementation, not by a theorem (the whole-assembler model of error order is not built); missing operands at the end of a line blame the next line (known finding F23).",
   "technique": "Lean 4 proof (induction over the text) + model/implementation correspondence + fault injection",
  },
+ "C14": {
+  "text": "Lean 4 theorems over the model of filename_navigate, parse_and_resolve_includes and the incbin/incstr range logic (Casm/Props/C14.lean): navigate_no_dotdot - no component of a successfully navigated path is '..' (for every current file and every relative name, both slash styles), escape_rejected(_deep) - one more '..' than directories available is an error wherever it occurs, backslash_is_slash, std_passthrough; once_at_most_once, cycle_is_error, self_inclusion_error, markers_in_order, splice_at_point for the inclusion expansion; incbin_exact / incbin_rejects_past_end / incbin_start_past_end / incbin_whole_file and the incstr twins. Tie: filename_navigate on 20k random spellings vs model vs an independent path-stack reference; 4k random inclusion graphs (cycles, diamonds, #once, several spellings per edge, missing files) assembled on the mock file server vs the model's expansion vs a reference expansion; every (start,length) around the file size for the three inclusion functions.",
+  "design_ref": "DESIGN.md section 6, C14",
+  "note": "Trusted: Lean kernel + three standard axioms; Windows path prefixes (filename_validate_relative) not modelled; termination of the expansion is by fuel in the model (fuel exhaustion never observed in the correspondence; not proved impossible); '<std>/ names only the built-in library' is enforced in FileServerReal (fixed, F18) and exercised on the real binary only in the thorough tier; symlinks and mount points are outside any model.",
+  "technique": "Lean 4 proof (induction over path components / operations) + model/implementation correspondence",
+ },
 }
 
 NOT_YET = {}
